@@ -77,6 +77,8 @@ def scenarios():
         SC("commit-path-blob-exists", [k("/c6/p1", "s_text")], k("/c6/p2", "s_text"), {("/c6/p1", "data"): [E["s_text"]]}, {("/c6/p1", "data"): E["s_text"], ("/c6/p2", "data"): E["s_text"]}),
         SC("second-data-view", [k("/c6/p", "s_text")], k("/c6/p", "s_text_v2", data="data2"), {("/c6/p", "data"): [E["s_text"]]}, {("/c6/p", "data"): E["s_text"], ("/c6/p", "data2"): E["s_text_v2"]}),
         SC("rekeep-same-code", [k("/c6/p", "s_text")], k("/c6/p", "s_text"), {("/c6/p", "data"): [E["s_text"]]}, {("/c6/p", "data"): E["s_text"]}),
+        SC("cold-first-keep-frame-parquet", [], k("/c6/frame", "s_frame"), {}, {("/c6/frame", "data"): scen.frame_value()}),
+        SC("rekeep-changed-code-with-object-cache", [k("/c6/p", "s_text", cache=2)], k("/c6/p", "s_text_v2", cache=2), {("/c6/p", "data"): [E["s_text"]]}, {("/c6/p", "data"): E["s_text_v2"]}),
     ]
     return out
 
@@ -352,7 +354,9 @@ def strace_job(arg):
 
 
 def _eq(a, b):
-    return type(a) is type(b) and a == b
+    from vp import storemodel as SM
+
+    return SM.values_equal(a, b)
 
 
 def _short(v):
